@@ -4,6 +4,7 @@ package main
 // scheduled goroutines of one process.
 
 import (
+	"errors"
 	"fmt"
 	"os"
 	"path/filepath"
@@ -11,6 +12,7 @@ import (
 	"strings"
 
 	"github.com/feichai0017/NoKV/utils"
+	"github.com/feichai0017/NoKV/vfs"
 
 	"verif/harness/hlib"
 )
@@ -18,21 +20,29 @@ import (
 type dirLockEngine struct{}
 
 func (e *dirLockEngine) Rule() string {
-	return "C33: 2-4 contenders on one directory, each calling AcquireDirLock and (on success) Release, interleaved at every system call (open / flock / return / the three effects of Release) by a random schedule biased towards switching inside Release; non-trivial = some contender took a step while another one was inside Release"
+	return "C33: 2-4 contenders on one directory, each calling AcquireDirLock and (on success) Release and then Release a second time; in a third of the cases one contender runs on a vfs.FaultFS whose first unlink of LOCK fails (the first Release reports an error, the second is the caller's retry); interleaved at every system call (open / flock / return / the three effects of Release, also of a repeated Release) by a random schedule biased towards switching inside Release; non-trivial = some contender took a step while another one was inside Release"
 }
 
 func (e *dirLockEngine) Gen(r *hlib.Rand, tier string) []string {
 	ops := []string{"dl.new"}
 	nthr := 2 + r.Intn(3)
+	faulty := -1
+	if r.Chance(35) {
+		faulty = r.Intn(2) // an early contender, so that others can come after its failed Release
+	}
 	remaining := map[int]int{} // steps a thread can still take at most
 	var live []int
 	next := 0
-	total := 10 + r.Intn(30)
+	total := 14 + r.Intn(36)
 	for i := 0; i < total; i++ {
 		if next < nthr && (len(live) == 0 || r.Chance(25)) {
-			ops = append(ops, fmt.Sprintf("dl.spawn %d", next))
+			if next == faulty {
+				ops = append(ops, fmt.Sprintf("dl.spawnf %d", next))
+			} else {
+				ops = append(ops, fmt.Sprintf("dl.spawn %d", next))
+			}
 			live = append(live, next)
-			remaining[next] = 7
+			remaining[next] = 10 // 3 of Acquire, 3 of Release, up to 4 of the second Release
 			next++
 			continue
 		}
@@ -82,8 +92,10 @@ func (e *dirLockEngine) Nontrivial(ops, impl, model, spec []string) bool {
 		switch {
 		case strings.HasSuffix(impl[i], ":rel1"), strings.HasSuffix(impl[i], ":rel2"):
 			inRelease[f[1]] = true
-		case strings.HasSuffix(impl[i], ":done"):
+		case strings.HasSuffix(impl[i], ":done"), strings.HasSuffix(impl[i], ":redone"), strings.HasSuffix(impl[i], ":noop"):
 			inRelease[f[1]] = false
+		case strings.HasSuffix(impl[i], ":rerel1"), strings.HasSuffix(impl[i], ":rerel2"):
+			inRelease[f[1]] = true
 		}
 	}
 	return false
@@ -105,6 +117,8 @@ func (e *dirLockEngine) Exec(ops []string) []string {
 	work := filepath.Join(dir, "db")
 	sched.reset()
 	held := map[int]bool{}
+	second := map[int]bool{}  // the contender is inside (or past) its second Release
+	yielded := map[int]bool{} // … and that Release reached a yield point
 	out := make([]string, len(ops))
 	for i, op := range ops {
 		f := strings.Fields(op)
@@ -112,16 +126,23 @@ func (e *dirLockEngine) Exec(ops []string) []string {
 		case f[0] == "dl.new" && len(f) == 1:
 			sched.reset()
 			held = map[int]bool{}
+			second, yielded = map[int]bool{}, map[int]bool{}
 			os.RemoveAll(work)
 			out[i] = "ok"
-		case f[0] == "dl.spawn" && len(f) == 2:
+		case (f[0] == "dl.spawn" || f[0] == "dl.spawnf") && len(f) == 2:
 			tid, err := strconv.Atoi(f[1])
 			if err != nil {
 				out[i] = "bad-op"
 				continue
 			}
+			var fs vfs.FS
+			if f[0] == "dl.spawnf" {
+				// the first unlink of LOCK through this contender's file system fails (transient I/O error)
+				policy := vfs.NewFaultPolicy(vfs.FailOnceRule(vfs.OpRemove, filepath.Join(work, "LOCK"), errors.New("verif: transient unlink failure")))
+				fs = vfs.NewFaultFSWithPolicy(vfs.OSFS{}, policy)
+			}
 			ok := sched.spawn(tid, func() string {
-				l, err := utils.AcquireDirLock(work, nil)
+				l, err := utils.AcquireDirLock(work, fs)
 				if err != nil {
 					if strings.Contains(err.Error(), "already in use") {
 						return "failed"
@@ -129,10 +150,10 @@ func (e *dirLockEngine) Exec(ops []string) []string {
 					return "failed:" + err.Error()
 				}
 				yield("held")
-				if err := l.Release(); err != nil {
-					return "done:" + err.Error()
-				}
-				return "done"
+				_ = l.Release() // may report the injected unlink failure
+				yield("released")
+				_ = l.Release() // Release called twice / the caller's retry
+				return "released2"
 			})
 			if ok {
 				out[i] = "ok"
@@ -154,12 +175,24 @@ func (e *dirLockEngine) Exec(ops []string) []string {
 				name = "locked"
 			case "dirlock.release.1":
 				name = "rel1"
+				if second[tid] {
+					name, yielded[tid] = "rerel1", true
+				}
 			case "dirlock.release.2":
 				name = "rel2"
+				if second[tid] {
+					name, yielded[tid] = "rerel2", true
+				}
 			case "return:failed":
 				name = "failed"
-			case "return:done":
+			case "released":
 				name = "done"
+				second[tid] = true
+			case "return:released2":
+				name = "noop"
+				if yielded[tid] {
+					name = "redone"
+				}
 			}
 			held[tid] = name == "held"
 			n := 0
